@@ -1,5 +1,6 @@
 import JetVerif.Model.Sexp
 import JetVerif.Model.Path
+import JetVerif.Model.Lex
 
 open JetVerif
 
@@ -7,7 +8,17 @@ def optBytes : Option (List UInt8) → Sexp
   | some b => .bytes b
   | none => .atom "none"
 
+def tokSexp (t : Tok × Int × List UInt8) : Sexp :=
+  .list [Sexp.ofNat t.1.code, Sexp.ofInt t.2.1, if t.1 == Tok.error then .bytes [] else .bytes t.2.2]
+
+def lexCmd (l r lc rc input : List UInt8) : Sexp :=
+  match Lex.lexRun (Lex.mkDelims l r lc rc) input with
+  | .done evs => .list (.atom "done" :: (Lex.tokensOf evs).map tokSexp)
+  | .crash _ evs => .list (.atom "crash" :: (Lex.tokensOf evs).map tokSexp)
+  | .outOfFuel evs => .list (.atom "fuel" :: (Lex.tokensOf evs).map tokSexp)
+
 def dispatch : Sexp → Sexp
+  | .list [.atom "lex", .bytes l, .bytes r, .bytes lc, .bytes rc, .bytes input] => lexCmd l r lc rc input
   | .list [.atom "path-clean", .bytes p] => .bytes (Path.clean p)
   | .list (.atom "path-join" :: rest) =>
       match rest.mapM (fun x => match x with | .bytes b => some b | _ => none) with
